@@ -330,9 +330,15 @@ def render_fmt(m, a):
         if t < 0x80:
             out.extend(b[i + 1:i + 1 + t])
             i += 1 + t
+        elif t == 0x80:
+            n_ = b[i + 1] | (b[i + 2] << 8)          # long literal piece: 0x80, u16 length (little endian), bytes
+            out.extend(b[i + 3:i + 3 + n_])
+            i += 3 + n_
         elif t == 0xC0:
             x = fa[argi][1]
-            if isinstance(x, RStr):
+            if isinstance(x, tuple) and x and x[0] == 'tokens':
+                out.append(ord('~'))           # Display of a TokenStream: only ever printed into a warning
+            elif isinstance(x, RStr):
                 out.extend(x.cs)
             elif isinstance(x, int) or is_sym(x):
                 out.append(x)            # char
